@@ -121,7 +121,7 @@ Record mgr_ok (s : db) (g : ghost) (k : N) (m : mgr) : Prop := mkMgrOk {
   mo_bnd : m_ref m < 4294967296 /\ m_locked m < 4294967296;
   mo_map : lkk g k = false -> forall q, m_locks m = Some q -> map_ok s q;
   mo_cap : (forall q, m_locks m = Some q -> hq_cap q = 0 -> hq_fast q = [])
-           /\ (forall q, m_wait m = Some q -> wq_cap q = 0 -> wq_fast q = [])
+           /\ (forall q, m_wait m = Some q -> (wq_cap q = 0 -> wq_fast q = []) /\ (wq_mode q = WFast -> wq_ring q = []))
 }.
 
 Record GInv (s : db) (g : ghost) : Prop := mkGInv {
